@@ -688,8 +688,93 @@ func byteChains(fn *ssa.Function) []byteChain {
 		ch.last = tests[cur].iff
 		out = append(out, ch)
 	}
+	// the same conjunction moved into a predicate helper: `if isTeredo(ip16) { refuse }`
+	for _, b := range fn.Blocks {
+		if len(b.Instrs) == 0 {
+			continue
+		}
+		iff, ok := b.Instrs[len(b.Instrs)-1].(*ssa.If)
+		if !ok {
+			continue
+		}
+		call, ok := iff.Cond.(*ssa.Call)
+		if !ok {
+			continue
+		}
+		h := call.Call.StaticCallee()
+		if h == nil || h.Pkg != fn.Pkg || len(h.Blocks) == 0 || len(call.Call.Args) != 1 {
+			continue
+		}
+		if prefix, ok := helperBytePrefix(h); ok {
+			out = append(out, byteChain{prefix: prefix, edge: kit.Edge{From: b, To: b.Succs[0]}, nonMatching: []kit.Edge{{From: b, To: b.Succs[1]}}, last: iff})
+		}
+	}
 	sort.Slice(out, func(i, j int) bool { return bytes.Compare(out[i].prefix, out[j].prefix) < 0 })
 	return out
+}
+
+// helperBytePrefix recognises a predicate whose whole body is
+// `return p[0]==a && p[1]==b && ...` over its only parameter and returns the
+// prefix it tests: it returns true exactly when all listed bytes match.
+func helperBytePrefix(h *ssa.Function) ([]byte, bool) {
+	if len(h.Params) != 1 {
+		return nil, false
+	}
+	rets := kit.Returns(h)
+	if len(rets) != 1 || len(rets[0].Results) != 1 {
+		return nil, false
+	}
+	isTest := func(v ssa.Value) (int64, byte, bool) {
+		cmp, ok := v.(*ssa.BinOp)
+		if !ok || cmp.Op != token.EQL {
+			return 0, 0, false
+		}
+		base, k, isB := byteLoad(cmp.X)
+		kv, isK := constInt(cmp.Y)
+		if !isB || !isK || kv < 0 || kv > 255 || base != ssa.Value(h.Params[0]) {
+			return 0, 0, false
+		}
+		return k, byte(kv), true
+	}
+	var prefix []byte
+	v := rets[0].Results[0]
+	if ph, ok := v.(*ssa.Phi); ok {
+		// every incoming edge but one is the constant false of a failed conjunct; walk the If chain from the entry
+		cur := h.Blocks[0]
+		for {
+			iff, ok := cur.Instrs[len(cur.Instrs)-1].(*ssa.If)
+			if !ok {
+				break
+			}
+			k, bv, ok := isTest(iff.Cond)
+			if !ok || k != int64(len(prefix)) || cur.Succs[1] != ph.Block() {
+				return nil, false
+			}
+			prefix = append(prefix, bv)
+			cur = cur.Succs[0]
+		}
+		// cur jumps to the phi block carrying the last conjunct
+		var last ssa.Value
+		for i, p := range ph.Block().Preds {
+			e := ph.Edges[i]
+			if p == cur {
+				last = e
+				continue
+			}
+			if k, ok := e.(*ssa.Const); !ok || k.Value == nil || constant.BoolVal(k.Value) {
+				return nil, false
+			}
+		}
+		k, bv, ok := isTest(last)
+		if !ok || k != int64(len(prefix)) {
+			return nil, false
+		}
+		return append(prefix, bv), true
+	}
+	if k, bv, ok := isTest(v); ok && k == 0 {
+		return []byte{bv}, true
+	}
+	return nil, false
 }
 
 // ---- R3 -----------------------------------------------------------------------
